@@ -19,6 +19,7 @@ import (
 	"math/big"
 	"os"
 	"path/filepath"
+	"strconv"
 	"strings"
 )
 
@@ -194,6 +195,17 @@ func (v *env) expr(e ast.Expr, want string) (string, string) {
 			}
 			return s, ""
 		}
+		if x.Kind == token.STRING {
+			u, err := strconv.Unquote(x.Value)
+			if err != nil {
+				fail("string literal %s", x.Value)
+			}
+			var bs []string
+			for i := 0; i < len(u); i++ {
+				bs = append(bs, fmt.Sprint(u[i]))
+			}
+			return "[" + strings.Join(bs, "; ") + "]", "string"
+		}
 		fail("unsupported literal %s", x.Value)
 	case *ast.SelectorExpr:
 		key := typeNameOfSel(x)
@@ -231,7 +243,27 @@ func (v *env) expr(e ast.Expr, want string) (string, string) {
 			}
 			return a, "uint64"
 		}
+		if k := selKey(x.Fun); (k == "strings.ContainsAny" || k == "strings.HasPrefix") && len(x.Args) == 2 {
+			a, ta := v.expr(x.Args[0], "string")
+			b, tb := v.expr(x.Args[1], "string")
+			if ta != "string" || tb != "string" {
+				fail("%s of non-strings", k)
+			}
+			if k == "strings.ContainsAny" {
+				if _, lit := x.Args[1].(*ast.BasicLit); !lit {
+					fail("strings.ContainsAny with a non-literal character set")
+				}
+				for _, c := range strings.Trim(b, "[]") {
+					_ = c
+				}
+				return "(gostr_contains_any " + a + " " + b + ")", "bool"
+			}
+			return "(gostr_has_prefix " + a + " " + b + ")", "bool"
+		}
 		if id, ok := x.Fun.(*ast.Ident); ok && id.Name == "len" && len(x.Args) == 1 {
+			if a, ok := x.Args[0].(*ast.Ident); ok && v.types[a.Name] == "string" {
+				return "(Z.of_nat (length " + a.Name + "))", "int"
+			}
 			if a, ok := x.Args[0].(*ast.Ident); ok && strings.HasPrefix(v.types[a.Name], "slice:") {
 				return "(Z.of_nat (length " + a.Name + "))", "int"
 			}
@@ -281,6 +313,18 @@ func (v *env) expr(e ast.Expr, want string) (string, string) {
 			b, tb := v.expr(x.Y, "")
 			if ta != "" && tb != "" && ta != tb {
 				fail("comparison of %s with %s", ta, tb)
+			}
+			if ta == "string" || tb == "string" {
+				if ta != tb {
+					fail("comparison of %s with %s", ta, tb)
+				}
+				if x.Op == token.EQL {
+					return "(gostr_eqb " + a + " " + b + ")", "bool"
+				}
+				if x.Op == token.NEQ {
+					return "(negb (gostr_eqb " + a + " " + b + "))", "bool"
+				}
+				fail("ordering on strings")
 			}
 			if ta == "bool" || tb == "bool" {
 				if x.Op == token.EQL {
@@ -557,6 +601,11 @@ func main() {
 	for _, w := range []string{"8", "16", "32", "64"} {
 		sb.WriteString("Definition wrap_u" + w + " := wrap_u " + w + ".\nDefinition wrap_i" + w + " := wrap_s " + w + ".\n")
 	}
+	sb.WriteString("\n(* Go strings are byte sequences: list Z of byte values *)\n")
+	sb.WriteString("Fixpoint gostr_eqb (a b : list Z) : bool :=\n  match a, b with\n  | nil, nil => true\n  | x :: a', y :: b' => (x =? y) && gostr_eqb a' b'\n  | _, _ => false\n  end.\n")
+	sb.WriteString("(* strings.ContainsAny for a set of ASCII characters (a multi-byte rune never contains an ASCII byte) *)\n")
+	sb.WriteString("Definition gostr_contains_any (s chars : list Z) : bool := existsb (fun c => existsb (Z.eqb c) chars) s.\n")
+	sb.WriteString("Fixpoint gostr_has_prefix (s p : list Z) : bool :=\n  match p, s with\n  | nil, _ => true\n  | y :: p', x :: s' => (x =? y) && gostr_has_prefix s' p'\n  | _, nil => false\n  end.\n")
 	sb.WriteString("\n")
 	for _, t := range ts {
 		fset := token.NewFileSet()
